@@ -168,18 +168,22 @@ func (t *Teamserver) ListenerRemove(Name string) ([]*Listener, []packager.Packag
 
 			t.Listeners = append(t.Listeners[:i], t.Listeners[i+1:]...)
 
+			// no add event of this listener is replayed to new clients any more (there can be
+			// more than one: the operator's request and the teamserver's own event)
+			var kept []packager.Package
 			for EventID := range t.EventsList {
 				if t.EventsList[EventID].Head.Event == packager.Type.Listener.Type {
 					if t.EventsList[EventID].Body.SubEvent == packager.Type.Listener.Add {
 						if name, ok := t.EventsList[EventID].Body.Info["Name"]; ok {
 							if name == Name {
-								t.EventsList = append(t.EventsList[:EventID], t.EventsList[EventID+1:]...)
-								return t.Listeners, t.EventsList
+								continue
 							}
 						}
 					}
 				}
+				kept = append(kept, t.EventsList[EventID])
 			}
+			t.EventsList = kept
 
 			return t.Listeners, t.EventsList
 		}
